@@ -100,7 +100,18 @@ def run_convert(case, ctx):
             except Exception:  # noqa
                 pass
         ctx.cls("converted-after-a-rejected-document")
-    if case["via"] == "stream":
+    if case["via"] in ("ast", "ast-types"):
+        # the two documented steps taken by hand: parse, then build the table - optionally with the caller's own type codes
+        from swcgeom.core.swc_utils import SWCTypes
+        from swcgeom.transforms.neurolucida_asc import Parser
+
+        ast = ctx.lib("Parser.parse", lambda: Parser(io.StringIO(text)).parse())
+        if case["via"] == "ast-types":
+            tree = ctx.lib("from_ast[types]", lambda: NeurolucidaAscToSwc.from_ast(ast, types=SWCTypes(axon=20, basal_dendrite=30, apical_dendrite=40)))
+            want_type = 20 if doc["label"].upper() == "AXON" else 30
+        else:
+            tree = ctx.lib("from_ast", NeurolucidaAscToSwc.from_ast, ast)
+    elif case["via"] == "stream":
         tree = ctx.lib("from_stream", NeurolucidaAscToSwc.from_stream, io.StringIO(text))
     else:
         path = os.path.join(ctx.tmpdir, "doc.asc")
@@ -116,7 +127,7 @@ def run_convert(case, ctx):
         ctx.cls("annotated-document>16KB")
     if len(text) > 70000 and sum(1 for k, _v in toks if k == "comment") > 500:
         ctx.cls("heavily-annotated-document>70KB")
-    if case["via"] != "stream" and len(want) <= 400:
+    if case["via"] in ("convert", "call") and len(want) <= 400:
         # the same file converted again (and again): every conversion is a function of the file
         prev = tree
         for rep in (2, 3):
@@ -134,12 +145,12 @@ def run_convert(case, ctx):
         ctx.cls("has-colours-or-comments")
         text2 = gen_asc.join_tokens(toks2, doc["ws"] + 1)
         tree2 = ctx.lib("from_stream", NeurolucidaAscToSwc.from_stream, io.StringIO(text2))
-        _compare(ctx, "decor-stripped", tree2, want, want_type, text2)
+        _compare(ctx, "decor-stripped", tree2, want, 2 if doc["label"].upper() == "AXON" else 3, text2)
 
 
 @st.composite
 def convert_strategy(draw, tier):
-    return {"doc": draw(gen_asc.document(tier)), "via": draw(st.sampled_from(["stream", "stream", "convert", "call"])),
+    return {"doc": draw(gen_asc.document(tier)), "via": draw(st.sampled_from(["stream", "stream", "convert", "call", "ast", "ast-types", "ast-types"])),
             # the converter has just rejected another document (a truncated one, a malformed point): the caller caught the
             # error and goes on with this one
             "rejected_before": draw(st.sampled_from([None, None, None, "( (Axon) (1 2 3 4) ( (5 6 7 8) | (9 1 1",
@@ -281,7 +292,7 @@ SUBCHECKS = [
     Sub("convert", convert_strategy, run_convert, quick=1000, thorough=12000, shards_quick=8,
         required={"material-after-inner-split": 60, "empty-non-final-alternative": 60, "empty-first-alternative": 40,
                   "branch>=1000-points": 10, "nesting>=8": 10, "nesting>=1000": 5, "via:convert": 60, "via:call": 60,
-                  "has-colours-or-comments": 100, "comment-right-after-a-split-opens": 15, "comment-right-after-a-bar": 10, "annotated-document>16KB": 15, "heavily-annotated-document>70KB": 15, "converted-after-a-rejected-document": 200,
+                  "has-colours-or-comments": 100, "comment-right-after-a-split-opens": 15, "comment-right-after-a-bar": 10, "annotated-document>16KB": 15, "heavily-annotated-document>70KB": 15, "converted-after-a-rejected-document": 200, "via:ast-types": 60,
                   "same-file-converted-three-times": 100, "label:AXON": 100, "label:DENDRITE": 100}),
     Sub("truncate", truncate_strategy, run_truncate, quick=400, thorough=5000, shards_quick=8,
         required={"cut:last-bracket-only": 200, "cut:inside": 500, "cut:char": 200}),
